@@ -438,6 +438,19 @@ def r10_container_copies(idx, r):
         r.require(touches, f"{c.name}.__deepcopy__:copies-elements", dc,
                   msg=f"{c.name} is a {[b for b in c.base_exprs if b in ('dict', 'list', 'OrderedDict')][0]} but its __deepcopy__ never reads its own elements (only instance attributes are copied): "
                       "the deep copy is an empty container")
+    # a block that takes over another block's content takes over a COPY: the replacement stays intact and can be used again
+    rb = idx.method("armi.reactor.blocks.Block", "replaceBlockWithBlock")
+    if rb is None:
+        raise AnchorMissing("Block.replaceBlockWithBlock")
+    rp = [q for q in rb.params() if q != "self"][0]
+    from ..flow import Flow as _Flow
+    flr = _Flow(rb.node, lambda nd: ["copied"] if isinstance(nd, ast.Call) and dotted(nd.func) in ("copy.deepcopy", "deepcopy") and nd.args and norm(nd.args[0]) == rp else []).run()
+    takes = [c_ for c_ in iter_calls(rb.node) if call_attr(c_) == "setChildren"]
+    bad_exit = [e for e in flr.normal_exits() if e.state.get("copied", (0, 0))[0] < 1]
+    direct = [x for x in ast.walk(rb.node) if isinstance(x, ast.Attribute) and isinstance(x.value, ast.Name) and x.value.id == rp and x.attr in ("p", "getChildren", "_children")]
+    r.require(bool(takes) and not bad_exit and not direct, "replaceBlockWithBlock:always-copies", rb, node=(direct[0] if direct else (takes[0] if takes else rb.node)),
+              msg=f"on some path the components / parameters of `{rp}` itself (not of a deep copy) are moved into this block: the replacement is gutted, and used a second time its "
+                  "components end up listed by several parents")
     comp = idx.cls(COMPOSITE) if "COMPOSITE" in globals() else idx.cls("armi.reactor.composites.Composite")
     sc = comp.methods.get("setChildren") if comp is not None else None
     if sc is None:
